@@ -65,6 +65,11 @@ func Load(lc LoadConfig) (*Shared, error) {
 	}
 	sh.errorT = typesPointer(we.Type())
 	sh.errorIface = universeError()
+	if jp := sh.Pkgs["encoding/json"]; jp != nil {
+		if n := jp.Type("Number"); n != nil {
+			sh.jsonNumberT = n.Type()
+		}
+	}
 	return sh, nil
 }
 
@@ -258,7 +263,7 @@ func Explore(sh *Shared, ec ExploreConfig) (*Report, error) {
 		}(i)
 	}
 	wg.Wait()
-	rep.Complete = complete && rep.Inconclusive == 0 && rep.Unsupported == 0 && rep.Unknowns == 0
+	rep.Complete = complete && rep.Inconclusive == 0 && rep.Unsupported == 0 && rep.Unknowns == 0 && rep.UnderApprox == 0
 	rep.Wall = time.Since(start)
 	sort.Slice(rep.Candidates, func(i, j int) bool {
 		return fmt.Sprint(rep.Candidates[i].Decisions) < fmt.Sprint(rep.Candidates[j].Decisions)
@@ -292,6 +297,10 @@ func (m *Machine) RunPath(pkg *ssa.Package, hfn *ssa.Function, prefix []int32, w
 		switch r := r.(type) {
 		case nil:
 			res.Status = "ok"
+			// implicit obligation of every path (C08 monitor): it ended
+			// without a reachable panic and within its budgets
+			res.Asserts++
+			res.Discharged++
 			if wantSample {
 				if model, rr := m.modelNow(); rr == sym.Sat {
 					res.Sample = m.concreteND(model)
@@ -326,6 +335,9 @@ func (m *Machine) RunPath(pkg *ssa.Package, hfn *ssa.Function, prefix []int32, w
 			case "outside":
 				res.Status = "outside"
 				res.Reason = r.msg
+			case "underapprox":
+				res.Status = "pruned"
+				res.UnderApprox = true
 			case "unsupported":
 				res.Status = "unsupported"
 				res.Reason = firstLine(r.msg)
